@@ -1,8 +1,8 @@
 """C13 — saving, cloning or reloading a quantized model preserves predictions (DESIGN.md §4 C13).
 
 Static tie (exhaustive): constructor signatures / get_config key sets / trainable behaviour of every
-class in `_add_supported_quantized_objects` (+ quantized_linear, quantized_hswish) and the table itself
-vs the Lean tables.
+class in `_add_supported_quantized_objects` (which since the fix round includes quantized_linear and
+quantized_hswish) and the table itself vs the Lean tables.
 Behavioural tie: for every layer of every generated model, the live layer is read into the model's
 `Layer` value (attributes, not get_config), then
   * real `get_config()` (canonical JSON)            vs  `layerGetConfig`
@@ -263,7 +263,10 @@ def run_routes(model, x, scratch):
 # ----------------------------------------------------------------------------- generation
 
 def serialisable_quantizers(rng, role):
-  """quantizer constructor expressions using only options that get_config emits"""
+  """quantizer constructor expressions over the options that get_config emits — since the fix round
+  every option but var_name / use_variables, so scale_axis, the po2 exponent bounds, is_quantized_clip
+  and the classes quantized_linear / quantized_hswish (in any slot, QActivation included) are drawn
+  here as ordinary members of the lattice"""
   import qkeras as Q
   b = int(rng.integers(2, 7))
   i = int(rng.integers(0, 2))
@@ -287,6 +290,13 @@ def serialisable_quantizers(rng, role):
       ("quantized_po2", lambda: Q.quantized_po2(b, quadratic_approximation=True, log2_rounding="floor")),
       ("quantized_relu_po2", lambda: Q.quantized_relu_po2(b, max_value=4.0, negative_slope=0.25)),
       ("quantized_ulaw", lambda: Q.quantized_ulaw(b, i, 1, u=100.0)),
+      # formerly dropped by get_config / not loadable (fix round)
+      ("quantized_bits+scale_axis", lambda: Q.quantized_bits(b, i, 1, alpha="auto", scale_axis=0)),
+      ("quantized_bits+po2_exponents", lambda: Q.quantized_bits(b, i, 1, alpha="auto_po2", min_po2_exponent=-1,
+                                                                max_po2_exponent=0)),
+      ("quantized_linear+scale_axis", lambda: Q.quantized_linear(b, i, alpha="auto", scale_axis=0)),
+      ("binary+scale_axis", lambda: Q.binary(alpha="auto", scale_axis=0)),
+      ("quantized_hswish", lambda: Q.quantized_hswish(b + 2, 2, relu_shift=2, relu_upper_bound=4)),
   ]
   act = [
       ("quantized_relu", lambda: Q.quantized_relu(b, i)),
@@ -302,6 +312,11 @@ def serialisable_quantizers(rng, role):
       ("quantized_ulaw", lambda: Q.quantized_ulaw(b, 1, 1)),
       ("binary", lambda: Q.binary(alpha=1.0)),
       ("ternary", lambda: Q.ternary(alpha=1.0)),
+      # formerly dropped by get_config / not loadable / not in the custom-object table (fix round)
+      ("quantized_relu+unquantized_clip", lambda: Q.quantized_relu(b, 1, is_quantized_clip=False,
+                                                                   relu_upper_bound=1.3)),
+      ("quantized_hswish", lambda: Q.quantized_hswish(b + 2, 2)),
+      ("quantized_linear", lambda: Q.quantized_linear(b, i)),
       ("str:quantized_relu", lambda: "quantized_relu(%d,%d)" % (b, i)),
       ("str:quantized_tanh", lambda: "quantized_tanh(%d)" % b),
       ("str:quantized_bits", lambda: "quantized_bits(%d,%d,1,alpha=1)" % (b, i)),
@@ -461,14 +476,17 @@ def random_opts(kind, rng, rep=0):
   return o
 
 
-# the recorded defects of the unchanged tree, reproduced on every run (stream "defects")
-def defect_cases():
+# the defects recorded on the tree this check was first built on, all repaired in the fix round
+# (known/C13.json "fixed"): one fixed model per former defect, replayed on every run (stream
+# "regression").  No known-finding entry covers them any more, so a failure of any route on any of
+# them is a VIOLATION.
+def regression_cases():
   import qkeras as Q
   qa = lambda mk: (lambda: mk())
   cases = []
   def add(kind, label, qclass, option, wq=None, aq=None, opts=None):
     cases.append(dict(kind=kind, label=label, qclass=qclass, option=option, wq=wq, aq=aq, opts=opts or {}))
-  # F4: options that get_config drops and that change inference
+  # F4: options that get_config used to drop and that change inference
   add("QDense", "quantized_bits(scale_axis=0)", "quantized_bits", "scale_axis",
       wq=qa(lambda: Q.quantized_bits(4, 0, 1, alpha="auto", scale_axis=0)))
   add("QDense", "quantized_bits(min/max_po2_exponent)", "quantized_bits", "min_po2_exponent",
@@ -481,27 +499,28 @@ def defect_cases():
       aq=qa(lambda: Q.quantized_relu(4, 1, is_quantized_clip=False, relu_upper_bound=1.3)))
   add("QDense", "quantized_relu(is_quantized_clip=False) as activation", "quantized_relu", "is_quantized_clip",
       aq=qa(lambda: Q.quantized_relu(4, 1, is_quantized_clip=False, relu_upper_bound=1.3)))
-  # quantized_hswish: from_config(get_config()) raises TypeError
+  # quantized_hswish: from_config(get_config()) used to raise TypeError
   add("QDense", "quantized_hswish kernel", "quantized_hswish", "*", wq=qa(lambda: Q.quantized_hswish(6, 2)))
   add("QDense", "quantized_hswish activation", "quantized_hswish", "*", aq=qa(lambda: Q.quantized_hswish(6, 2)))
-  # classes missing from the custom-object table: QActivation resolves its dict through the table
+  # classes formerly missing from the custom-object table: QActivation resolves its dict through the table
   add("QActivation", "QActivation(quantized_linear)", "quantized_linear", "table",
       aq=qa(lambda: Q.quantized_linear(4, 0)))
   add("QActivation", "QActivation(quantized_hswish)", "quantized_hswish", "table",
       aq=qa(lambda: Q.quantized_hswish(6, 2)))
-  # QAdaptiveActivation.get_config drops relu_upper_bound
+  # QAdaptiveActivation.get_config used to drop relu_upper_bound
   add("QAdaptiveActivation", "QAdaptiveActivation(relu_upper_bound=0.5)", "QAdaptiveActivation",
       "relu_upper_bound", opts=dict(act="quantized_relu", bits=4, relu_upper_bound=0.5))
   return cases
 
 
 def ema_case(run, rng, scratch):
-  """QAdaptiveActivation after a few training steps: the EMA min/max are model weights and ARE carried
-  over by all three routes, but `call` quantizes with the integer bits assigned by the PREVIOUS call
-  (the build-time value right after a rebuild), so the first prediction of the rebuilt model differs.
-  Recorded defect; `mirrored` = the recorded signature is observed exactly (first predict differs,
-  EMA variables equal).  The SECOND prediction must be bit-identical (clause `second-predict`): that
-  is where a dropped QAdaptiveActivation option shows once the EMA state is non-trivial."""
+  """QAdaptiveActivation after a few training steps: the EMA min/max are model weights and are carried
+  over by all three routes; the integer bits of the quantizer are derived state.  `call` used to
+  quantize with the integer bits assigned by the PREVIOUS call (the build-time value right after a
+  rebuild), so the first prediction of a rebuilt model differed (repaired in the fix round: `call`
+  now refreshes the integer bits from the moving averages first).  Both the FIRST and the SECOND
+  prediction of the rebuilt model must be bit-identical to the original's; the second one is where a
+  dropped QAdaptiveActivation option shows once the EMA state is non-trivial."""
   import tensorflow as tf
   import qkeras as Q
   from qkeras.utils import clone_model, quantized_model_from_json, load_qmodel
@@ -551,7 +570,7 @@ def ema_case(run, rng, scratch):
           run.violate("route", dict(key, failure="second-predict-differs"), detail, mirrored=False)
         elif z1.tobytes() != y.tobytes():
           run.count("ema_first_predict_differs")
-          run.violate("route", dict(key, failure="predict-differs"), detail, mirrored=True)
+          run.violate("route", dict(key, failure="predict-differs"), detail, mirrored=False)
         else:
           run.count("ema_first_predict_same")
       except Exception as e:  # pylint: disable=broad-except
@@ -628,7 +647,8 @@ def run(run: core.Run, tier: str):
   run.extra["rule"] = (
       "single-layer and small DAG models over every runnable layer class of the custom-object table "
       "(QBidirectional and RNN(Q*Cell) wrappers included) x quantizers drawn from the serialisable option "
-      "lattice x layer options x random float32 weights/inputs; plus one fixed model per recorded defect. "
+      "lattice (every option but var_name/use_variables) x layer options x random float32 weights/inputs; plus "
+      "one fixed model per defect repaired in the fix round (regression stream) and trained-EMA models. "
       "Per model: 3 routes on the real code (clause oracle), and per library layer: get_config vs "
       "layerGetConfig and reloaded attributes vs layerFromConfig. non-trivial = distinct (layer kind, "
       "quantizer classes, options) combination")
@@ -775,8 +795,8 @@ def run(run: core.Run, tier: str):
       run.count("kind_dag")
       add_model("dag", label, {"layer": "dag", "qclass": "/".join(picks), "option": "serialisable"}, model, x)
 
-    # ---------------- stream 3: the recorded defects
-    for c in defect_cases():
+    # ---------------- stream 3: regression models of the repaired defects
+    for c in regression_cases():
       tf.keras.backend.clear_session()
       try:
         shp, layer = build_layer(c["kind"], rng, c["wq"], c["aq"], c["opts"])
@@ -789,9 +809,9 @@ def run(run: core.Run, tier: str):
         run.count("build_failed")
         run.extra.setdefault("build_failed", []).append({"label": c["label"], "error": "%s: %s" % (type(e).__name__, str(e)[:160])})
         continue
-      run.case(("defect", c["label"]), sample={"stream": "defects", "model": c["label"]} if c["option"] == "scale_axis" else None)
-      run.count("kind_defect_" + c["kind"])
-      add_model("defects", c["label"], {"layer": c["kind"], "qclass": c["qclass"], "option": c["option"]}, model, x,
+      run.case(("regression", c["label"]), sample={"stream": "regression", "model": c["label"]} if c["option"] == "scale_axis" else None)
+      run.count("kind_regression_" + c["kind"])
+      add_model("regression", c["label"], {"layer": c["kind"], "qclass": c["qclass"], "option": c["option"]}, model, x,
                 defect=c["label"])
     # ---------------- stream 4: a QAdaptiveActivation whose EMA state was trained
     ema_case(run, rng, scratch)
@@ -874,10 +894,10 @@ def run(run: core.Run, tier: str):
       run.violate("route", key, dict(detail, model=m["label"], route=r, status=status,
                                      replay="build the model described by `model`, then qkeras.utils "
                                             "%s route without custom_objects" % r), mirrored=mirrored)
-    if m["stream"] == "defects":
+    if m["stream"] == "regression":
       bad = [r for r in ROUTES if m["res"][r][0] != "ok"]
-      run.count("defect_reproduced" if bad else "defect_not_reproduced")
-      if not bad:
-        run.extra.setdefault("defects_not_reproduced", []).append(m["label"])
+      run.count("regression_fails" if bad else "regression_holds")
+      if bad:
+        run.extra.setdefault("repaired_defects_back", []).append(m["label"])
   run.extra["models"] = len(models)
   run.extra["layers_tied"] = sum(len(m["layers"]) for m in models)
